@@ -13,7 +13,7 @@ from world.sim import SimFuture, SimPool, SimSync, EXC, vname, outcome, oname
 import leanval
 
 ID = "C13"
-LEAN_MODULES = ["MoreExec.Props.C13"]
+LEAN_MODULES = ["MoreExec.Props.C13", "MoreExec.Props.C13Code"]
 THEOREMS = [
     "MoreExec.MapFut.C13_spec",
     "MoreExec.MapFut.C13_calls",
@@ -21,12 +21,18 @@ THEOREMS = [
     "MoreExec.MapFut.C13_compose",
     "MoreExec.MapFut.C13_reraise_same",
     "MoreExec.MapFut.C13_flat_nonfuture",
+    "MoreExec.MapFut.C13_code_is_model",
+    "MoreExec.MapFut.C13_code_meets_spec",
+    "MoreExec.MapFut.C13_code_calls",
 ]
-KERNELS = []
+KERNELS = ["K15"]
 BUDGET = {"quick": 150, "thorough": 1200}
 ASSUMPTIONS = [
     "user functions are total and deterministic per call; tracebacks are not modelled (identity of the exception object is)",
-    "the model is hand-written (no regenerated kernel): tied to map.py/flat_map.py by the differential only",
+    "the resolution methods (_delegate_resolved, _delegate_failed, both _on_mapped, the constructors' defaults) are regenerated from "
+    "map.py / flat_map.py as programs of Model/PyMap (K15) and proved equal to the hand-written MapFut.resolve; MODELLED there: the meaning "
+    "of the primitives they call (copy_future_exception, copy_exception, try_set_result, _me_delegate_cancelled, _set_delegate, the "
+    "delegate's cancelled()/exception()/result()) - tied to common.py by the behaviour differential of this check",
 ]
 RULE = ("full cross product of input outcome (value/exception/cancelled) x fn behaviour (omitted, return, raise, return future "
         "ok/err/cancelled/pending-then-finished) x error_fn behaviour (same + re-raise same) x form (MapExecutor, FlatMapExecutor, "
